@@ -78,13 +78,13 @@ struct LwwCase {
 
 pub fn property() -> Property {
     let mut jobs: Vec<Box<dyn JobT>> = Vec::new();
-    add::<SGCounter>(&mut jobs, 24000, 300_000);
-    add::<SPNCounter>(&mut jobs, 24000, 300_000);
-    add::<SGSet>(&mut jobs, 18000, 200_000);
-    add::<SLww>(&mut jobs, 24000, 300_000);
-    add::<SMax>(&mut jobs, 18000, 200_000);
-    add::<SMin>(&mut jobs, 18000, 200_000);
-    jobs.push(lww_flag_job(60000, 400_000));
+    add::<SGCounter>(&mut jobs, 48000, 300_000);
+    add::<SPNCounter>(&mut jobs, 48000, 300_000);
+    add::<SGSet>(&mut jobs, 36000, 200_000);
+    add::<SLww>(&mut jobs, 48000, 300_000);
+    add::<SMax>(&mut jobs, 36000, 200_000);
+    add::<SMin>(&mut jobs, 36000, 200_000);
+    jobs.push(lww_flag_job(120000, 400_000));
     Property {
         id: "C11",
         rule: "Plans of inc/dec/inc_many/dec_many (steps in {0,1,2,3,7,1000,65536,2^32,..}), register writes with model-issued unique markers / values incl. i64::MIN/MAX, GSet inserts, by 2-5 actors, delivered in ANY order (newest-first biased) with duplicates, merges and stale-snapshot merges; after every step the affected replica's read is compared with arithmetic over its knowledge set (GCounter = sum over actors of the largest running total known, also never decreasing along a replica's history; PNCounter = that for P minus that for N as BigInt; Max/Min = extreme of applied values and the initial 0; LWWReg = value of the greatest marker; GSet = union, contains consistent) and the full internal state tree is compared too; separate job: LWWReg validate_update/validate_op/validate_merge flag exactly equal-marker/different-value. Non-trivial = >=2 actors, an op delivered before an earlier op of the same actor, >=1 duplicate and >=1 merge; distinct = distinct Plan hash.".into(),
